@@ -50,6 +50,7 @@ private def adwinStep (c : Cfg Float) (s : State Float) : List String → Option
     match parseFloat? t with
     | some x => let s' := Adwin.step c s x; some (adwinOut (stepMargin c s x) s', s')
     | none => none
+  | ["reset"] => let s' := Adwin.reset s; some (adwinOut (1.0 / 0.0) s', s')      -- a manual `reset()` between updates
   | _ => none
 
 /-- `y <y_true> <y_pred>`: labels as natural-number ids (the harness maps each encoding injectively) -/
@@ -60,6 +61,7 @@ private def adwinAccStep (c : Cfg Float) (s : State Float) : List String → Opt
       let s' := AdwinAcc.step c s (yt, yp)
       some (adwinOut (stepMargin c s (AdwinAcc.indicator yt yp)) s', s')
     | _, _ => none
+  | ["reset"] => let s' := Adwin.reset s; some (adwinOut (1.0 / 0.0) s', s')
   | _ => none
 
 private def parseCfg? : List String → Option (Cfg Float)
